@@ -7,10 +7,10 @@
 EXTENDS Sequences, Naturals, FiniteSets, TLC, Json, IOUtils
 CONSTANTS Mode, MaxTurns, Part, Parts
 
-Classes == {"ok", "empty", "blank", "comment", "prefix", "quote", "multiline", "inject", "template", "long", "unicode", "userfirst", "directive", "noop", "ctl"}
+Classes == {"ok", "empty", "blank", "comment", "prefix", "quote", "multiline", "inject", "template", "long", "unicode", "userfirst", "directive", "noop", "ctl", "dollar"}
 ClassNo(c) == CASE c = "ok" -> 0 [] c = "empty" -> 1 [] c = "blank" -> 2 [] c = "comment" -> 3 [] c = "prefix" -> 4 [] c = "quote" -> 5
                 [] c = "multiline" -> 6 [] c = "inject" -> 7 [] c = "template" -> 8 [] c = "long" -> 9 [] c = "unicode" -> 10
-                [] c = "userfirst" -> 11 [] c = "directive" -> 12 [] c = "noop" -> 13 [] c = "ctl" -> 14
+                [] c = "userfirst" -> 11 [] c = "directive" -> 12 [] c = "noop" -> 13 [] c = "ctl" -> 14 [] c = "dollar" -> 15
 Modes == {"dialog", "single", "general", "multistep", "v2"}
 (* call positions (tasks) of a turn per mode *)
 Tasks(m) == CASE m = "dialog"    -> <<"generate_user_intent", "generate_next_steps", "generate_bot_message">>
